@@ -374,6 +374,8 @@ class Walk(object):
         item = {'id': '%06d' % nd.id, 'members': []}
         self._add_struct(item)
         self._rep_depth += 1
+        if self.regs.refw:
+            self.unbalanced = True     # a body inside a 203YYY definition list defines reference values: never neutral
         for _ in range(nd.count):
             before = self.regs.snapshot()
             it = []
@@ -411,6 +413,8 @@ class Walk(object):
         item = {'id': '%06d' % nd.id, 'factor': fidx, 'members': []}
         self._add_struct(item)
         self._rep_depth += 1
+        if self.regs.refw:
+            self.unbalanced = True     # (also when it runs zero times: the compiler decides before the count is known)
         for _ in range(count):
             before = self.regs.snapshot()
             it = []
